@@ -68,7 +68,7 @@ def key_of(uid):
     return 's' + uid if isinstance(uid, str) else 'i%d' % uid
 
 
-def tagged_policy(key, tag, bad=None, fixed_desc=False):
+def tagged_policy(key, tag, bad=None, fixed_desc=False, empty_elem=False):
     from vakt.policy import Policy
     # fixed_desc: every policy of the history carries the same description, so that an update changes nothing
     # but the elements (the tag is then read off the action)
@@ -83,7 +83,9 @@ def tagged_policy(key, tag, bad=None, fixed_desc=False):
     resources = ['r']
     if bad == 'unbalanced_element':
         resources = ['r', '<<r>']          # compile_regex raises InvalidPatternError while the row is being built
-    return Policy(uid, actions=['a%d' % tag], subjects=['s'], resources=resources, effect='allow', description=desc)
+    # empty_elem: the empty string is a legal string element (it matches the empty value)
+    subjects = ['s', ''] if empty_elem else ['s']
+    return Policy(uid, actions=['a%d' % tag], subjects=subjects, resources=resources, effect='allow', description=desc)
 
 
 def bad_kind(backend, op):
@@ -106,7 +108,7 @@ def render_policy(p):
                 p.actions[0][:1] == 'a' and p.actions[0][1:].isdigit():
             d = 't' + p.actions[0][1:]
         if isinstance(d, str) and d.startswith('t') and list(p.actions) == ['a' + d[1:]] and \
-                list(p.subjects) == ['s'] and list(p.resources) == ['r'] and p.effect == 'allow' and \
+                sorted(p.subjects) in (['s'], ['', 's']) and list(p.resources) == ['r'] and p.effect == 'allow' and \
                 dict(p.context) == {}:
             return '%s=%s' % (s_pstr(key), d[1:])
         return '%s=CORRUPT(%r,%r)' % (s_pstr(key), d, list(p.actions))
@@ -130,14 +132,15 @@ def do_op(st, backend, op):
             | ['get_all', limit, offset] | ['retrieve_all', batch]  -> canonical result token"""
     from vakt.exceptions import PolicyExistsError
     kind = op[0]
-    fixed = len(op) > 4 and op[4] == 'X'
+    fixed = len(op) > 4 and 'X' in op[4]
+    empty = len(op) > 4 and 'E' in op[4]
     try:
         objs = st.__dict__.setdefault('_vf_objs', {})
     except Exception:  # noqa
         objs = {}
     try:
         if kind == 'add':
-            p = tagged_policy(op[1], op[2], bad_kind(backend, op) if op[3] else None, fixed)
+            p = tagged_policy(op[1], op[2], bad_kind(backend, op) if op[3] else None, fixed, empty)
             st.add(p)
             objs[op[1]] = p
             return 'ok'
@@ -146,7 +149,7 @@ def do_op(st, backend, op):
             st.add(objs[op[1]])
             return 'ok'
         if kind == 'update':
-            p = tagged_policy(op[1], op[2], bad_kind(backend, op) if op[3] else None, fixed)
+            p = tagged_policy(op[1], op[2], bad_kind(backend, op) if op[3] else None, fixed, empty)
             st.update(p)
             objs[op[1]] = p
             return 'ok'
@@ -218,7 +221,9 @@ def gen_ops(rng, backend, n, keys, allow_bad=True, mut_share=0.6, readd=True):
     tag = 0
     present = set()
     obj = {}                       # key -> tag of the Policy object last handed to an add/update that returned
-    fixed = ['X'] if rng.random() < 0.25 else []        # a history whose updates change nothing but the elements
+    flags = ('X' if rng.random() < 0.25 else '') + ('E' if rng.random() < 0.2 else '')
+    # X: a history whose updates change nothing but the elements; E: policies with an empty-string element
+    fixed = [flags] if flags else []
     for _ in range(n):
         r = rng.random()
         k = rng.choice(keys)
